@@ -4,6 +4,7 @@ C17 - Sliding windows cover, overlap, partition and splice exactly.
 Real code executed symbolically: ibldsp.utils.WindowGenerator (__init__, firstlast, firstlast_valid,
 firstlast_splicing, slice, tscale) with ns, nswin, overlap as z3 Ints.
 """
+import numpy as np
 import z3
 
 from symex import arrays, core, larr, stubs
@@ -80,7 +81,37 @@ def case_firstlast(ctx, K):
     for k in range(n):
         f, l = wins[k]
         ctx.oblige("tscale_is_window_centre", core.eq(ts[k] * fs * 2, core._as_real(f + l - 1)))
+    # a second request with another sampling rate is answered for that rate
+    fs2 = ctx.int("fs2", 1, 10 ** 5)
+    ts2 = wg.tscale(fs2)
+    for k in range(n):
+        f, l = wins[k]
+        ctx.oblige("tscale_second_rate_is_window_centre", core.eq(ts2[k] * fs2 * 2, core._as_real(f + l - 1)))
     return n
+
+
+def case_slice_array(ctx, ns, nswin, overlap, ndim, axis):
+    """slice_array hands out sig[first:last] along the requested axis (negative axes count from the end, NumPy convention)"""
+    import ibldsp.utils as u
+    shape = {1: (ns,), 2: (2, ns), 3: (2, 2, ns)}[ndim]
+    ax = axis % ndim
+    if ax != ndim - 1:
+        shape = tuple(ns if i == ax else 2 for i in range(ndim))
+    els = [ctx.real(f"s{i}", -100, 100) for i in range(int(np.prod(shape)))]
+    sig = arrays.mk(els, shape=shape)
+    wg = u.WindowGenerator(ns, nswin, overlap)
+    wins = list(u.WindowGenerator(ns, nswin, overlap).firstlast)
+    got = list(wg.slice_array(sig, axis=axis)) if axis != -1 else list(wg.slice_array(sig))
+    if not ctx.oblige("slice_array_one_piece_per_window", len(got) == len(wins), detail={"got": len(got)}):
+        return
+    ref = np.array(els, dtype=object).reshape(shape)
+    for (f, l), g in zip(wins, got):
+        idx = tuple(slice(f, l) if i == ax else slice(None) for i in range(ndim))
+        exp = ref[idx]
+        if not ctx.oblige("slice_array_piece_shape", tuple(np.shape(g)) == exp.shape, detail={"window": [f, l], "got": str(np.shape(g)), "expected": str(exp.shape)}):
+            continue
+        for a, b in zip(np.asarray(g, dtype=object).ravel().tolist(), exp.ravel().tolist()):
+            ctx.oblige("slice_array_piece_values", core.eq(a, b), detail={"window": [f, l]})
 
 
 def case_valid(ctx, K):
@@ -238,6 +269,8 @@ def cases(tier):
         cs.append(Case(f"valid_interleaved_with_{other}", "case_valid_interleaved", {"K": min(K, 8), "other": other}))
     for (nw, ov) in ((6, 2), (5, 0)) if tier == "quick" else ((6, 2), (5, 0), (8, 4), (7, 2), (9, 3)):
         cs.append(Case(f"splicing_collected_w{nw}_ov{ov}", "case_splicing_collected", {"nswin": nw, "overlap": ov, "K": 4}, timeout_s=1500))
+    for (nd, ax) in ((1, -1), (1, 0), (2, -1), (2, 1), (2, 0), (2, -2), (3, -1), (3, 1), (3, -2)):
+        cs.append(Case(f"slice_array_{nd}d_axis{ax}", "case_slice_array", {"ns": 7, "nswin": 3, "overlap": 1, "ndim": nd, "axis": ax}))
     b = (6, 4) if tier == "quick" else (9, 6)     # lengths below 2^b[0], windows below 2^b[1]
     cs.append(Case(f"nwin_ieee_{b[0]}_{b[1]}", "case_nwin_ieee", {"bits_ns": b[0], "bits_win": b[1]}, timeout_s=3000))
     return cs
@@ -257,7 +290,7 @@ def twins(tier):
 
 def replay(case, params, cex):
     m = cex["model"]
-    ns, nswin, ov = m["ns"], m.get("nswin", params.get("nswin")), m.get("overlap", params.get("overlap"))
+    ns, nswin, ov = m.get("ns", params.get("ns")), m.get("nswin", params.get("nswin")), m.get("overlap", params.get("overlap"))
     body = f"""
 from ibldsp.utils import WindowGenerator
 ns, nswin, overlap = {ns}, {nswin}, {ov}
@@ -291,10 +324,30 @@ fs = %d
 ts = wg.tscale(fs)
 for k, (f, l) in enumerate(wins):
     if abs(ts[k] * fs * 2 - (f + l - 1)) > 1e-6 * max(1, f + l): bad.append('tscale_is_window_centre')
+fs2 = %d
+ts2 = wg.tscale(fs2)
+for k, (f, l) in enumerate(wins):
+    if abs(ts2[k] * fs2 * 2 - (f + l - 1)) > 1e-6 * max(1, f + l): bad.append('tscale_second_rate_is_window_centre')
 print('windows', wins[:8], 'nwin', wg.nwin, 'produced', n)
 if obligation in bad: reproduced(f'{obligation} fails for ns={ns} nswin={nswin} overlap={overlap}: nwin={wg.nwin} produced={n}')
 not_reproduced(str(bad))
-""" % m.get("fs", 1)
+""" % (m.get("fs", 1), m.get("fs2", 1))
+    elif case.startswith("slice_array"):
+        body = f"""
+from ibldsp.utils import WindowGenerator
+ns, nswin, overlap, ndim, axis = {params['ns']}, {params['nswin']}, {params['overlap']}, {params['ndim']}, {params['axis']}
+ax = axis % ndim
+shape = tuple(ns if i == ax else 2 for i in range(ndim))
+sig = np.arange(int(np.prod(shape)), dtype=float).reshape(shape)
+wg = WindowGenerator(ns, nswin, overlap)
+wins = list(WindowGenerator(ns, nswin, overlap).firstlast)
+got = list(wg.slice_array(sig, axis=axis)) if axis != -1 else list(wg.slice_array(sig))
+if len(got) != len(wins): reproduced(f'{{len(got)}} pieces for {{len(wins)}} windows')
+for (f, l), g in zip(wins, got):
+    exp = sig[tuple(slice(f, l) if i == ax else slice(None) for i in range(ndim))]
+    if np.shape(g) != exp.shape or not np.array_equal(g, exp): reproduced(f'slice_array(axis={{axis}}) piece of window ({{f}}, {{l}}) has shape {{np.shape(g)}}, expected {{exp.shape}} = sig[first:last] along that axis')
+not_reproduced()
+"""
     elif case.startswith("valid_interleaved"):
         body += f"""
 other = {params['other']!r}
